@@ -18,11 +18,13 @@
 #include "zstd_errors.h"
 #include "../lib/common/fse.h"
 #include "../lib/common/huf.h"
+#define XXH_NAMESPACE ZSTD_
+#include "../lib/common/xxhash.h"
 #include "vgen.h"
 #include <stdio.h>
 #include <stdint.h>
 
-#define NSLOT 6
+#define NSLOT 8
 #define MAXD (1u << 21)
 static unsigned char* dict[NSLOT]; static size_t dictSize[NSLOT]; static char dictKind[NSLOT][16];
 static unsigned char *src, *comp, *out; static FILE* T;
@@ -93,7 +95,7 @@ static size_t do_decompress(const char* md, int s, size_t cs, size_t n, const ch
             else dd = ZSTD_createDDict(dict[s], dictSize[s]);
             if (!dd) { *err = "createDDict"; ZSTD_freeDCtx(d); return (size_t)-ZSTD_error_dictionary_corrupted; }
             if (!strcmp(md, "ddict")) { r = ZSTD_decompress_usingDDict(d, out, n + 64, comp, cs, dd); goto done; }
-            if (!strcmp(md, "multi")) { int o = (s + 1) % NSLOT; ZSTD_DCtx_setParameter(d, ZSTD_d_refMultipleDDicts, 1); if (dictSize[o] >= 8) { other = ZSTD_createDDict(dict[o], dictSize[o]); if (other) ZSTD_DCtx_refDDict(d, other); } }
+            if (!strcmp(md, "multi")) { int o = (s + 1) % 6; ZSTD_DCtx_setParameter(d, ZSTD_d_refMultipleDDicts, 1); if (dictSize[o] >= 8) { other = ZSTD_createDDict(dict[o], dictSize[o]); if (other) ZSTD_DCtx_refDDict(d, other); } }
             r = ZSTD_DCtx_refDDict(d, dd); }
         if (!ZSTD_isError(r)) { /* streaming decode in small pieces */ ZSTD_inBuffer in; size_t total = 0; int guard = 0; in.src = comp; in.size = cs; in.pos = 0; r = 1;
             while (in.pos < cs && ++guard < 1000000) { ZSTD_outBuffer ob; ob.dst = out + total; ob.size = 3000; ob.pos = 0; r = ZSTD_decompressStream(d, &ob, &in); if (ZSTD_isError(r)) break; total += ob.pos; if (r == 0) break; }
@@ -118,6 +120,8 @@ int main(int argc, char** argv) {
             if (!strcmp(kind, "file")) { char path[400]; FILE* D; sscanf(p, "%399s", path); D = fopen(path, "rb"); dictSize[s] = D ? fread(dict[s], 1, MAXD, D) : 0; if (D) fclose(D); }
             else if (!strcmp(kind, "raw")) { long n; unsigned seed; sscanf(p, "%ld %u", &n, &seed); if ((size_t)n > MAXD) n = MAXD; vgen("text", n, seed, dict[s]); if (n >= 4 && dict[s][0] == 0x37) dict[s][0] = 'x'; dictSize[s] = (size_t)n; }
             else if (!strcmp(kind, "bytes")) { long n; unsigned seed; int magic; sscanf(p, "%ld %u %d", &n, &seed, &magic); if ((size_t)n > MAXD) n = MAXD; vgen("rand", n, seed, dict[s]); if (magic && n >= 4) { dict[s][0] = 0x37; dict[s][1] = 0xA4; dict[s][2] = 0x30; dict[s][3] = 0xEC; } dictSize[s] = (size_t)n; }
+            else if (!strcmp(kind, "copy")) { int from; unsigned id; sscanf(p, "%d %u", &from, &id); dictSize[s] = 0; if (from >= 0 && from < NSLOT && dictSize[from] >= 8) { memcpy(dict[s], dict[from], dictSize[from]); dictSize[s] = dictSize[from];
+                    dict[s][4] = id & 255; dict[s][5] = (id >> 8) & 255; dict[s][6] = (id >> 16) & 255; dict[s][7] = (id >> 24) & 255; } }
             else if (!strcmp(kind, "gen")) { unsigned id, seed, ofMax, mlMax, llMax, ofLog, mlLog, llLog, r0, r1, r2; long cs; int hufMode, ofZero;
                 if (sscanf(p, "%u %ld %u %d %d %u %u %u %u %u %u %u %u %u", &id, &cs, &seed, &hufMode, &ofZero, &ofMax, &mlMax, &llMax, &ofLog, &mlLog, &llLog, &r0, &r1, &r2) == 14)
                     dictSize[s] = gen_dict(dict[s], id, (size_t)cs, seed, hufMode, ofZero, ofMax, mlMax, llMax, ofLog, mlLog, llLog, r0, r1, r2); else dictSize[s] = 0; }
@@ -152,6 +156,24 @@ int main(int argc, char** argv) {
             fprintf(T, "{\"e\":\"wrong\",\"idC\":%u,\"idD\":%u,\"cok\":%s,\"frameID\":%u,\"dok\":%s,\"match\":%s}\n", ZSTD_getDictID_fromDict(dict[sc], dictSize[sc]), ZSTD_getDictID_fromDict(dict[sd], dictSize[sd]),
                     ZSTD_isError(cs) ? "false" : "true", ZSTD_isError(cs) ? 0 : ZSTD_getDictID_fromFrame(comp, cs), (!ZSTD_isError(cs) && !ZSTD_isError(ds)) ? "true" : "false",
                     (!ZSTD_isError(cs) && !ZSTD_isError(ds) && ds == 30000 && !memcmp(out, src, 30000)) ? "true" : "false");
+        } else if (!strcmp(cmd, "MULTI")) {     /* MULTI <base slot> <n> <collide> : a multi-DDict set of n dictionaries (copies of a formatted one with other IDs) */
+            int bs, n, collide, k, okAll = 1, refusedUnknown = 1, made = 0; unsigned ids[260]; ZSTD_DDict* dds[260]; unsigned cand = 1000; ZSTD_DCtx* d; unsigned char* dcopy; unsigned unknown = 0;
+            if (sscanf(line + off, "%d %d %d", &bs, &n, &collide) < 3 || n > 256 || dictSize[bs] < 8) continue;
+            dcopy = malloc(dictSize[bs]); memcpy(dcopy, dict[bs], dictSize[bs]);
+            /* collide: every ID hashes to the last slot of the initial 64-entry table (the set hashes XXH64 of the 4 ID bytes) */
+            for (k = 0; k < n + 1; k++) { for (;;) { cand++; if (!collide || (ZSTD_XXH64(&cand, 4, 0) & 63) == 63) break; } if (k < n) ids[k] = cand; else unknown = cand; }
+            d = ZSTD_createDCtx(); ZSTD_DCtx_setParameter(d, ZSTD_d_refMultipleDDicts, 1);
+            for (k = 0; k < n; k++) { dcopy[4] = ids[k] & 255; dcopy[5] = (ids[k] >> 8) & 255; dcopy[6] = (ids[k] >> 16) & 255; dcopy[7] = (ids[k] >> 24) & 255;
+                dds[k] = ZSTD_createDDict(dcopy, dictSize[bs]); if (dds[k]) { made++; if (ZSTD_isError(ZSTD_DCtx_refDDict(d, dds[k]))) okAll = 0; } }
+            vgen("text", 5000, 11, src); if (dictSize[bs] > 300) memcpy(src, dict[bs] + dictSize[bs] - 200, 200);
+            for (k = 0; k <= n && made == n; k++) { unsigned id = k < n ? ids[k] : unknown; ZSTD_CCtx* c = ZSTD_createCCtx(); size_t cs, dr; ZSTD_inBuffer in; ZSTD_outBuffer ob;
+                dcopy[4] = id & 255; dcopy[5] = (id >> 8) & 255; dcopy[6] = (id >> 16) & 255; dcopy[7] = (id >> 24) & 255;
+                cs = ZSTD_compress_usingDict(c, comp, ZSTD_compressBound(5000), src, 5000, dcopy, dictSize[bs], 3); ZSTD_freeCCtx(c);
+                if (ZSTD_isError(cs)) { okAll = 0; continue; }
+                in.src = comp; in.size = cs; in.pos = 0; ob.dst = out; ob.size = 5064; ob.pos = 0; ZSTD_DCtx_reset(d, ZSTD_reset_session_only); dr = ZSTD_decompressStream(d, &ob, &in);
+                if (k < n) { if (dr != 0 || ob.pos != 5000 || memcmp(out, src, 5000)) okAll = 0; } else if (!ZSTD_isError(dr)) refusedUnknown = 0; }
+            fprintf(T, "{\"e\":\"multiN\",\"n\":%d,\"collide\":%d,\"made\":%d,\"okAll\":%s,\"refusedUnknown\":%s}\n", n, collide, made, okAll ? "true" : "false", refusedUnknown ? "true" : "false");
+            for (k = 0; k < n; k++) ZSTD_freeDDict(dds[k]); ZSTD_freeDCtx(d); free(dcopy);
         } else if (!strcmp(cmd, "HIST")) {      /* replay of a DictLife behaviour on one CCtx and one DCtx */
             ZSTD_CCtx* c = ZSTD_createCCtx(); ZSTD_DCtx* d = ZSTD_createDCtx(); ZSTD_CDict* cds[NSLOT] = {0}; ZSTD_DDict* dds[NSLOT] = {0}; const char* p = line + off; char op[32]; int k; size_t cs = 0; int haveFrame = 0; int step = 0;
             for (i = 0; i < NSLOT; i++) if (dictSize[i]) { cds[i] = ZSTD_createCDict(dict[i], dictSize[i], 3); dds[i] = ZSTD_createDDict(dict[i], dictSize[i]); }
